@@ -690,7 +690,7 @@ pub fn reuse_data() -> (Vec<Vec<u8>>, Vec<Vec<Vec<f32>>>) {
 }
 
 fn run_reuse(ctx: &mut Ctx, rep: &mut Report, base: &mut u64) {
-    let depth = if ctx.quick() { 5 } else { 6 };
+    let depth = if ctx.quick() { 4 } else { 6 };
     let ops = reuse_ops();
     rep.space(
         "reuse",
